@@ -151,8 +151,9 @@ def _rename(fn, name):
     return fn
 
 
-_NAME = re.compile(r"^(?:lvl_(\d+)|helper_raise)$")
-_IN = re.compile(r"\bin (lvl_\d+|helper_raise)\b")
+_NAME = re.compile(r"^(?:lvl_(\d+)|site_(\d+)|helper_raise)$")
+_IN = re.compile(r'^\s*File "[^"]*", line \d+, in (\S+)', re.M)
+SITE_BASE = 500  # DiagGlue.tla SiteBase
 _LVL = re.compile(r"\blvl_(\d+)\b")
 
 
@@ -160,15 +161,44 @@ def frame_of(name):
     m = _NAME.match(name)
     if not m:
         return None
-    return -1 if m.group(1) is None else int(m.group(1))
+    if m.group(1) is not None:
+        return int(m.group(1))
+    if m.group(2) is not None:
+        return SITE_BASE + int(m.group(2))
+    return -1
 
 
 def collapse(seq):
+    """harness frames of a traceback, in order; a frame listed twice in DIRECT succession (Python does that for
+    `raise e` inside the frame) counts once"""
     out = []
+    prev = object()
     for x in seq:
-        if x is not None and (not out or out[-1] != x):
+        if x is not None and x != prev:
             out.append(x)
+        prev = x
     return out
+
+
+def project_tb(tb):
+    return collapse(frame_of(f.name) for f in traceback.extract_tb(tb))
+
+
+def project_format_error(e):
+    """frames of asynq.debug.format_error(e) (filtering and highlighting off), last traceback block"""
+    old_f = getattr(asynq.debug, "_should_filter_traceback", True)
+    old_h = getattr(asynq.debug, "_use_syntax_highlighting", True)
+    try:
+        asynq.debug.enable_filter_traceback(False)
+        asynq.debug.enable_traceback_syntax_highlight(False)
+        text = asynq.debug.format_error(e)
+        last = text.rsplit("Traceback (most recent call last)", 1)[-1]
+        return collapse(frame_of(n) for n in _IN.findall(last))
+    except BaseException as e2:  # noqa
+        return ["raised", type(e2).__name__]
+    finally:
+        asynq.debug.enable_filter_traceback(old_f)
+        asynq.debug.enable_traceback_syntax_highlight(old_h)
 
 
 class PErr(Exception):
@@ -318,38 +348,68 @@ def run_glue(case):
 
         return A()(_rename(body, "lvl_%d" % i))
 
+    retr = case.get("retr", ["call"])
+    sights = []
+
+    def make_site(k):
+        def site(t):
+            try:
+                t.value()
+                return []
+            except (VErr, NErr):
+                return project_tb(sys.exc_info()[2])
+
+        return _rename(site, "site_%d" % k)
+
+    def retrieve(k, how, t):
+        """a caught retrieval of the failed task's outcome (DiagGlue.tla: Retrieve)"""
+        if how == "value":
+            tb = make_site(k)(t)
+        else:
+            e = t.error()
+            tb = [] if e is None else project_format_error(e)
+        sights.append({"k": k, "kind": how, "tb": tb})
+
     def lvl_0():
         probe(0, "entry")
-        if False:
-            yield None
-        return fns[1]()
+        if retr == ["call"]:
+            if False:
+                yield None
+            return fns[1]()
+        child = fns[1].asynq()
+        for k, how in enumerate(retr[:-1], 1):
+            retrieve(k, how, child)
+        if retr[-1] == "yield":
+            return (yield child)
+        return child.value()
 
     for i in range(1, d + 1):
         fns[i] = make(i)
-    top = A()(lvl_0) if outer else fns[1]
     got = {}
-    old_f = getattr(asynq.debug, "_should_filter_traceback", True)
-    old_h = getattr(asynq.debug, "_use_syntax_highlighting", True)
-    try:
-        top()
-        got["outcome"] = ["val"]
-    except (VErr, NErr) as e:
-        tb = sys.exc_info()[2]
-        kind = "E" if isinstance(e, VErr) else "N"
-        origin = e.args[0] if e.args else -99
-        got["outcome"] = ["err", kind, origin, collapse(frame_of(f.name) for f in traceback.extract_tb(tb))]
-        got["debug_extract_tb"] = collapse(frame_of(f[2]) for f in asynq.debug.extract_tb(tb))
+    if outer == 0 and retr != ["call"]:
+        # the top-level caller keeps the task and asks it several times
+        t = fns[1].asynq()
+        for k, how in enumerate(retr, 1):
+            retrieve(k, how, t)
+        e = t.error()
+        if e is None:
+            got["outcome"] = ["val"]
+        else:
+            got["outcome"] = ["err", "E" if isinstance(e, VErr) else "N", e.args[0] if e.args else -99, project_format_error(e)]
+        got["debug_extract_tb"] = got["format_error"] = got["outcome"][3] if e is not None else None
+    else:
+        top = A()(lvl_0) if outer else fns[1]
         try:
-            asynq.debug.enable_filter_traceback(False)
-            asynq.debug.enable_traceback_syntax_highlight(False)
-            text = asynq.debug.format_error(e)
-            last = text.rsplit("Traceback (most recent call last)", 1)[-1]
-            got["format_error"] = collapse(frame_of(n) for n in _IN.findall(last))
-        except BaseException as e2:  # noqa
-            got["format_error"] = ["raised", type(e2).__name__]
-        finally:
-            asynq.debug.enable_filter_traceback(old_f)
-            asynq.debug.enable_traceback_syntax_highlight(old_h)
+            top()
+            got["outcome"] = ["val"]
+        except (VErr, NErr) as e:
+            tb = sys.exc_info()[2]
+            kind = "E" if isinstance(e, VErr) else "N"
+            origin = e.args[0] if e.args else -99
+            got["outcome"] = ["err", kind, origin, project_tb(tb)]
+            got["debug_extract_tb"] = collapse(frame_of(f[2]) for f in asynq.debug.extract_tb(tb))
+            got["format_error"] = project_format_error(e)
+    got["sights"] = sights
     got["probes"] = probes
     diff = []
     want = list(case["outcome"])
@@ -360,6 +420,8 @@ def run_glue(case):
             diff.append("glue.debug_extract_tb")
         if got.get("format_error") != want[3]:
             diff.append("glue.format_error")
+    if sights != [dict(x) for x in case.get("sights", [])]:
+        diff.append("glue.retrieval")
     if probes != [dict(p) for p in case["probes"]]:
         diff.append("stack")
     return got, diff
